@@ -196,13 +196,59 @@ Definition watch_passing (prefix : str) (status : list str) (strict : bool) (che
 Definition svc_config (prefix : str) (status : list str) (strict : bool)
            (checks : list hcheck) (catalog : list centry) : outcome str :=
   make_config prefix catalog (watch_passing prefix status strict checks).
-(* ServiceMonitor.Watch as a whole: the blocking-query loop processes one snapshot of the
+(* ---- Consul API errors (since the repair, fix: commit c8f84e8 in /repo) ----
+   Catalog().Service(name) can fail; serviceConfig then returns an error, makeConfig returns
+   the error and no text whatever the other lookups gave, and the Watch loop logs, sleeps and
+   tries again WITHOUT pushing a config and without advancing its index. *)
+Definition err_catalog : N := 2.
+Definition err_health : N := 3.
+(* [failing]: the service names whose lookup fails at this moment *)
+Definition catalog_lookup (failing : list str) (catalog : list centry) (name : str) : outcome (list centry) :=
+  if existsb (beq name) failing then Err err_catalog else Ok (catalog_service catalog name).
+Definition service_config_o (failing : list str) (prefix : str) (catalog : list centry) (name : str) (keys : list ikey)
+  : outcome (list str) :=
+  if beq name [] || match keys with [] => true | _ => false end then Ok []
+  else (do svcs <- catalog_lookup failing catalog name; service_entries prefix keys svcs)%outcome.
+Fixpoint all_configs_o (failing : list str) (prefix : str) (catalog : list centry) (m : smap) : outcome (list str) :=
+  match m with
+  | [] => Ok []
+  | (name, keys) :: r =>
+      (do c <- service_config_o failing prefix catalog name keys;
+       do rest <- all_configs_o failing prefix catalog r;
+       Ok (c ++ rest))%outcome
+  end.
+Definition make_config_o (failing : list str) (prefix : str) (catalog : list centry) (passing : list hcheck) : outcome str :=
+  (do ls <- all_configs_o failing prefix catalog (group passing); Ok (join (sort_desc ls) [10]))%outcome.
+Definition svc_config_o (failing : list str) (prefix : str) (status : list str) (strict : bool)
+           (checks : list hcheck) (catalog : list centry) : outcome str :=
+  make_config_o failing prefix catalog (watch_passing prefix status strict checks).
+
+(* what one round of the Watch loop sees: the health query fails, or it returns a state and the
+   catalog answers (or fails for some names) *)
+Inductive observation :=
+| ObsHealthErr
+| ObsState (checks : list hcheck) (catalog : list centry) (failing : list str).
+Definition observe_config (prefix : str) (status : list str) (strict : bool) (o : observation) : outcome str :=
+  match o with
+  | ObsHealthErr => Err err_health
+  | ObsState checks catalog failing => svc_config_o failing prefix status strict checks catalog
+  end.
+
+(* ServiceMonitor.Watch as a whole: the blocking-query loop processes one observation of the
    registry completely (health state -> tag filter -> passing -> catalog lookups -> config ->
    send on the updates channel) before it issues the next query, so the configs are delivered
-   one per observed snapshot and in snapshot order *)
+   in observation order, one per observation that succeeded; a failed round delivers nothing *)
 Definition watch_deliveries (prefix : str) (status : list str) (strict : bool)
-           (snaps : list (list hcheck * list centry)) : list (outcome str) :=
-  map (fun sn => svc_config prefix status strict (fst sn) (snd sn)) snaps.
+           (obs : list observation) : list str :=
+  flat_map (fun o => match observe_config prefix status strict o with Ok t => [t] | _ => [] end) obs.
+
+(* before c8f84e8: serviceConfig logged the failed lookup and returned nil, i.e. the service
+   looked as if it had no catalog entries, and the config was pushed all the same (refutation
+   theorem only) *)
+Definition svc_config_lookup_unrepaired (failing : list str) (prefix : str) (status : list str) (strict : bool)
+           (checks : list hcheck) (catalog : list centry) : outcome str :=
+  svc_config prefix status strict checks
+             (filter (fun e => negb (existsb (beq (e_sname e)) failing)) catalog).
 (* the same round with the filter as it was before fdfd589 (refutation theorem only) *)
 Definition svc_config_unrepaired (prefix : str) (status : list str) (strict : bool)
            (checks : list hcheck) (catalog : list centry) : outcome str :=
